@@ -1024,6 +1024,24 @@ def run(ctx):
     found = len(ctx.violations)
     n_cfg = 70 if ctx.tier == "quick" else 700
     cfgs = [corpus_single_slot()] + [gen_config(ctx.rng, i + 1, ctx.tier) for i in range(n_cfg)]
+    # directed configurations (every run, not left to chance): detector maps whose interfaces select NO
+    # pre-step point field at all (the detector id is nevertheless derived from the pre-step volume), and
+    # ones that select ONLY pre-step point fields
+    PRE_MASK = sum(1 << BIT[n] for n in ("pre.time", "pre.pos", "pre.dir", "pre.vol", "pre.energy"))
+    POST_MASK = sum(1 << BIT[n] for n in ("post.time", "post.pos", "post.dir", "post.vol", "post.energy"))
+    n_directed = 0
+    for c in cfgs[1:]:
+        if n_directed >= 4:
+            break
+        ifs = c.get("ifaces", [])
+        if c.get("mode") in ("some", "all") and ifs and all(f.get("kind") == "rec" for f in ifs):
+            for f in ifs:
+                if n_directed % 2 == 0:
+                    f["sel"] = (f["sel"] & ~PRE_MASK) or (1 << BIT["edep"])
+                else:
+                    f["sel"] = (f["sel"] & ~POST_MASK) or (1 << BIT["pre.vol"])
+            ctx.count("directed:" + ("no-pre-point-fields" if n_directed % 2 == 0 else "no-post-point-fields"))
+            n_directed += 1
     stats = run_configs(ctx, loop_exe, model_exe, cfgs)
     ctx.log("loop configs=%d %s" % (n_cfg, dict(stats)))
 
